@@ -377,7 +377,7 @@ mod c18 {
 
         let overrun = o.rlevel == 0;
         let bogus_ack = !ack_ok(&s.send_window, ack);
-        let bad_framing = (begin && o.rem > 0) || (!fin && pl > 0 && pl == announced);
+        let bad_framing = (begin && o.rem > 0) || (!fin && pl > 0 && pl == announced) || (begin && !fin && announced == 0);
         let short_sdu = begin && !fin && announced <= mtu;
         match case {
             RxCase::Overrun => kani::assume(overrun),
